@@ -20,8 +20,8 @@ PARTIAL = [
 ]
 ASSUMPTIONS = ["numpy pairwise summation vs sequential summation differ only at rounding level"]
 JIT_TWIN = ('utils', 'update')   # groups of harness/jittwin.py: the numba-compiled code is run on the same battery and compared
-PRE_LEAN = C.s2_trace_gbs   # S2: utils.apply_gbs re-traced on every run for 2 and 3 grains
-EXTRA_LEAN_MODULES = ("Bridge.Gbs",)
+PRE_LEAN = C.s2_trace_gbs   # S2: utils.apply_gbs (2 and 3 grains) and utils.extract_vars (2 grains) re-traced on every run
+EXTRA_LEAN_MODULES = ("Bridge.Gbs", "Bridge.Extract")
 TRUSTED = ["history recorder: subclass of scipy.integrate.LSODA substituted for pydrex.minerals.LSODA at run time"]
 
 
